@@ -506,6 +506,80 @@ func (r *run) slow() {
 	r.recompute()
 }
 
+// awaitEnd waits for the simulated process to end. While it waits it watches for global
+// quiescence: no goroutine holds or wants the baton and virtual time stands still, i.e. every
+// simulated goroutine is blocked on something only another simulated goroutine could provide.
+// That is a deadlock of the simulated program. What a real process does then depends on its
+// timers: if one is pending (ti's watchdog) the process sleeps until it fires, so the
+// simulator jumps the virtual clock to the earliest timer (discrete-event step) and fires it;
+// without a pending timer the Go runtime would end the process with "all goroutines are
+// asleep - deadlock!" (status deadlock, exit 2). Real time is used only to detect the
+// standstill, never to decide an outcome.
+func (r *run) awaitEnd() {
+	const step = 10 * time.Millisecond
+	idle, lastTicks, lastPicks := 0, int64(-1), uint64(0)
+	t0 := time.Now()
+	for {
+		select {
+		case <-r.doneCh:
+			return
+		case <-time.After(step):
+		}
+		r.smu.Lock()
+		quiet := r.sch.holder == nil && len(r.sch.ready) == 0 && !r.sch.arbitrating
+		picks := r.sch.picks
+		r.smu.Unlock()
+		t := r.ticks
+		if quiet && t == lastTicks && picks == lastPicks {
+			idle++
+		} else {
+			idle = 0
+		}
+		lastTicks, lastPicks = t, picks
+		if idle >= 30 {
+			idle = 0
+			r.mu.Lock()
+			var first *timer
+			for _, tm := range r.timers {
+				if tm.at < 1<<61 && (first == nil || tm.at < first.at) {
+					first = tm // (timers of a node without a virtual clock never fire)
+				}
+			}
+			if first != nil {
+				keep := r.timers[:0]
+				for _, tm := range r.timers {
+					if tm != first {
+						keep = append(keep, tm)
+					}
+				}
+				r.timers = keep
+				r.timedOut = true
+			}
+			r.mu.Unlock()
+			r.hangAt = "deadlock(all goroutines blocked)"
+			if first == nil {
+				r.finish("deadlock", 2)
+				return
+			}
+			if first.at > r.ticks {
+				r.ticks = first.at
+			}
+			r.nFired++
+			r.evAdd(0x7433, uint64(r.ticks))
+			if first.f != nil {
+				Go(first.f)
+				r.kick()
+			} else {
+				first.ch <- time.Time{}
+			}
+		}
+		if time.Since(t0) > 90*time.Second { // failsafe only
+			r.finish("stuck", -4)
+			return
+		}
+	}
+}
+
 // ---- goroutines and panics -------------------------------------------------------
 
 var reNum = regexp.MustCompile(`\[[-0-9:]+\]|\b[0-9]+\b|0x[0-9a-f]+`)
@@ -867,11 +941,7 @@ func runOne(sc Scenario, mainFn func(), reset func(), realOut, realErr *os.File,
 		mainFn()
 		r.finish("exit", 0) // main returned
 	}()
-	select {
-	case <-r.doneCh:
-	case <-time.After(90 * time.Second): // real time, failsafe only: nothing ticks, nothing exits
-		r.finish("stuck", -4)
-	}
+	r.awaitEnd()
 	retire := false
 
 	// The simulated process is gone. Whatever its goroutines still do is discarded.
